@@ -1,5 +1,6 @@
 import EosProofs.Lemmas.Machine
 import EosModel.World
+import EosProofs.Lemmas.FleetTable
 /-! # C13 — projected effects and fleet boosts reach exactly their current targets
 
 Spec level (`EosModel.World`): which items a projected modifier and a fleet boost select, stated as exact
@@ -83,5 +84,62 @@ theorem setup_order_irrelevant_partial (W : C → Graph N V) (o1 o2 : List (Step
       observe W (run W { cfg := c, cache := fun _ => none } o2) n := by
   rw [observe_eq_spec W _ (good_run W o1 _ (good_init W c) h1),
       observe_eq_spec W _ (good_run W o2 _ (good_init W c) h2), hc]
+
+/-! ## The regenerated fleet-boost table
+
+`EosGen.FleetTable` is regenerated on every run by `tools/gen/fleet_table.py`: worlds with 1–3 fits in the solar
+system, each fit in fleet A / fleet B / no fleet and with / without a ship, a running warfare-buff module on fit 1
+whose buff has one template per filter kind (item, domain, domain_group, domain_skillrq), built through the public
+API of the real code; for every item of every fit and every template it records whether the template's attribute is
+boosted — in the world built from scratch (`obs`) and after every item was read before the booster was activated
+(`obsInc`).  Fits, ships and fleets are built first and the booster last, which keeps both observations outside the
+known finding K1.  Configuration, types, effect, templates and the modifier the service makes of a template
+(`DogmaModifier._make_from_buff_template`) are read back from the live objects.  By definition
+`specBoost c = (boostTargets c.cfg c.a.fit).any fun tg => affectsProjected c.cfg c.a c.m tg c.x c.tx`. -/
+
+section fleetTable
+open Eos.AffectsSpec
+open EosGen.FleetTable (fleetCases fleetCaseCount fleetBoostedCount)
+
+/-- "a running fleet boost reaches exactly the ships of the boosting fit and of fits in the same fleet" (and,
+through the template's filter, the items aboard them): on EVERY case of the regenerated table the specification's
+`boostTargets` + `affectsProjected` is what the real code did, under both observations. -/
+theorem fleet_table_matches_spec :
+    ∀ c ∈ fleetCases, specBoost c = c.obs ∧ specBoost c = c.obsInc :=
+  fun c hc => ⟨(fleet_cases_good c hc).2.1, (fleet_cases_good c hc).2.2.1⟩
+
+/-- The modifier the real service makes of the template is one of the specification's `buffModifiers` of the
+booster (values read from the booster's type). -/
+theorem fleet_table_buff_modifier :
+    ∀ c ∈ fleetCases, ∃ bms, buffModifiers c.u (baseReader c.u c.cfg) c.a = .ok bms ∧ c.m ∈ bms := by
+  intro c hc
+  have h := (fleet_cases_good c hc).2.2.2.1
+  unfold specBuffModifier at h
+  split at h
+  · rename_i bms hb
+    exact ⟨bms, hb, by simpa using h⟩
+  · cases h
+
+/-- The fleet-boost branch of `gather` itself: for every case the specification gathers, for the template's
+attribute of the item, nothing — or exactly one modification, with the template's operator, the booster's buff
+value and resistance factor 1 — according to whether the real code boosted the item. -/
+theorem fleet_table_gather_matches :
+    ∀ c ∈ fleetCases, ∃ v, baseReader c.u c.cfg c.a c.m.srcAttr = .ok v ∧
+      gatherOutcome (gather c.u c.cfg specImmune (baseReader c.u c.cfg) c.x c.tx c.m.tgtAttr) c.m.op v =
+        some (if c.obs then some 1 else none) := by
+  intro c hc
+  have h := (fleet_cases_good c hc).2.2.2.2
+  unfold specGatherBoost at h
+  split at h
+  · rename_i v hv
+    exact ⟨v, hv, h⟩
+  · cases h
+
+/-- Nothing was lost between the generator and the theorems (and the statements are not vacuous): the table has
+exactly as many cases and as many "boosted" cases as the generator counted observations. -/
+theorem fleet_table_complete :
+    fleetCases.length = fleetCaseCount ∧ fleetCases.countP (·.obs) = fleetBoostedCount := fleet_counts
+
+end fleetTable
 
 end Eos.C13
